@@ -72,11 +72,19 @@ type isoShape struct {
 	wide, manyDirs int
 }
 
+// mtimes: mostly ordinary; sometimes outside what a recording time can hold (year-1900 wraps in a byte)
+func isoMTime(env *Env, base int64) int64 {
+	if env.Rnd.Intn(12) == 0 {
+		return []int64{7258118400, 5869584000, 5869583999, -2145916800, 4102444800, 0}[env.Rnd.Intn(6)] + env.Rnd.Int63n(1000)
+	}
+	return base + env.Rnd.Int63n(500000000)
+}
+
 func genIsoTree(env *Env, sh isoShape, name string) *WNode {
 	var gen func(d int, name string) *WNode
 	dirs := 0
 	gen = func(d int, name string) *WNode {
-		n := &WNode{Name: name, Dir: true, MTime: 1200000000 + env.Rnd.Int63n(500000000)}
+		n := &WNode{Name: name, Dir: true, MTime: isoMTime(env, 1200000000)}
 		used := map[string]bool{}
 		nk := env.Rnd.Intn(sh.maxKids + 1)
 		if d == 0 && sh.wide > 0 {
@@ -92,7 +100,7 @@ func genIsoTree(env *Env, sh isoShape, name string) *WNode {
 				if env.Rnd.Intn(5) == 0 {
 					sz = env.Rnd.Intn(20000)
 				}
-				n.Kids = append(n.Kids, &WNode{Name: kn, MTime: 1100000000 + env.Rnd.Int63n(600000000), Content: Content{{Kind: 'g', N: sz, A: env.Rnd.Intn(256)}}})
+				n.Kids = append(n.Kids, &WNode{Name: kn, MTime: isoMTime(env, 1100000000), Content: Content{{Kind: 'g', N: sz, A: env.Rnd.Intn(256)}}})
 			}
 		}
 		return n
@@ -415,6 +423,16 @@ func validateAndMatch(env *Env, id string, src isoSource, size int64, tree *WNod
 	}
 }
 
+func oddTimes(t *WNode) bool {
+	odd := false
+	t.Walk(func(_ string, x *WNode) {
+		if x.MTime > 4000000000 || x.MTime < 100000 {
+			odd = true
+		}
+	})
+	return odd
+}
+
 func runIso(env *Env) error {
 	time.Local = time.UTC
 	base, err := os.MkdirTemp("", "viso")
@@ -434,6 +452,32 @@ func runIso(env *Env) error {
 	} else {
 		env.Count("anchor_image", "missing")
 	}
+	type deferred struct {
+		id, path, obs, rootAbs string
+		fsys               *pfs.FS
+		ps3                bool
+	}
+	var later []deferred
+	defer func() {
+		// C18: a sample of the trees is opened once more at the end of the run (another second on the clock)
+		if len(later) > 0 {
+			time.Sleep(1100 * time.Millisecond)
+		}
+		for _, d := range later {
+			f, err := d.fsys.Open(d.path)
+			if err != nil {
+				env.OracleFail(d.id, "[C18-reopen] re-open at the end of the run failed: "+err.Error())
+				continue
+			}
+			if v, ok := f.(*pfs.VirtualISO); ok {
+				if got := isoObs(v, d.rootAbs, d.ps3); got != d.obs {
+					env.OracleFail(d.id, fmt.Sprintf("[C18-reopen] the image of the unchanged directory differs when opened later, outside the documented variable fields: %s vs %s", trim(got, 80), trim(d.obs, 80)))
+				}
+			}
+			f.Close()
+		}
+		env.Count("reopened_later", fmt.Sprint(len(later)))
+	}()
 	for i := 0; i < env.N; i++ {
 		id := fmt.Sprintf("iso-%d", i)
 		top := filepath.Join(base, fmt.Sprintf("t%d", i))
@@ -461,8 +505,8 @@ func runIso(env *Env) error {
 		titleID := ""
 		if ps3 {
 			titleID = []string{"BLES01234", "BCUS98111", "NPEB00001", "ABCD", "ABCDE", strings.Repeat("T", 31)}[env.Rnd.Intn(6)]
-			if env.Rnd.Intn(12) == 0 {
-				titleID = []string{"", "ABC", strings.Repeat("T", 32)}[env.Rnd.Intn(3)] // must be refused
+			if env.Rnd.Intn(5) == 0 {
+				titleID = []string{"", "ABC", strings.Repeat("T", 32), strings.Repeat("T", 32), strings.Repeat("U", 33), strings.Repeat("V", 64)}[env.Rnd.Intn(6)] // must be refused
 			}
 			g := tree.Child("PS3_GAME")
 			if g == nil {
@@ -590,10 +634,16 @@ func runIso(env *Env) error {
 			o.Close()
 		}
 		v.Close()
+		if len(later) < 12 && !sh.huge && (i%4 == 1 || oddTimes(tree)) {
+			later = append(later, deferred{id, prefix + rootName, obs, rootAbs, fsys, ps3})
+			top = "" // kept until the end of the run (removed with base)
+		}
 		if i < 3 {
 			env.Sample(map[string]any{"id": id, "ps3": ps3, "shape": shape, "tree": trim(sb.String(), 300), "observed": trim(obs, 200)})
 		}
-		os.RemoveAll(top)
+		if top != "" {
+			os.RemoveAll(top)
+		}
 	}
 	return nil
 }
